@@ -1,0 +1,23 @@
+package lang
+
+import "io"
+
+// inputReader keeps reporting the first error other than io.EOF that an
+// input returned. json.Decoder forgets an error that arrives together with
+// the bytes completing a value and reads again; an input that then says
+// io.EOF would otherwise end the run as if it had been read to its end.
+type inputReader struct {
+	r   io.Reader
+	err error
+}
+
+func (ir *inputReader) Read(p []byte) (int, error) {
+	if ir.err != nil {
+		return 0, ir.err
+	}
+	n, err := ir.r.Read(p)
+	if err != nil && err != io.EOF {
+		ir.err = err
+	}
+	return n, err
+}
